@@ -528,6 +528,21 @@ func (e *sched) summary(st *sState, call *ssa.Call, cal *ssa.Function, args []sV
 			e.fail("Set on a non-point at %s", pos)
 		}
 		return args[0], true
+	case "math/bits.RotateLeft32", "math/bits.RotateLeft64", "math/bits.RotateLeft16", "math/bits.RotateLeft8":
+		// concrete operands only (constant propagation through table generators)
+		if len(args) == 2 {
+			if v, ok := args[0].(sInt); ok {
+				if k, ok := args[1].(sInt); ok && k.v.IsInt64() {
+					w := map[string]int{"math/bits.RotateLeft32": 32, "math/bits.RotateLeft64": 64, "math/bits.RotateLeft16": 16, "math/bits.RotateLeft8": 8}[name]
+					sh := int(((k.v.Int64() % int64(w)) + int64(w)) % int64(w))
+					m := new(big.Int).Sub(pow2(uint(w)), big.NewInt(1))
+					x := new(big.Int).And(v.v, m)
+					r := new(big.Int).Or(new(big.Int).And(new(big.Int).Lsh(x, uint(sh)), m), new(big.Int).Rsh(x, uint(w-sh)))
+					return sInt{r}, true
+				}
+			}
+		}
+		return sOpaque{"rotation of a non-constant"}, true
 	case "sm2/internal.(*SM2Point).Negate":
 		f, ok := e.pointArg(st, args[1], "Negate at "+pos)
 		if !ok || !e.setForm(st, args[0], pfScale(f, big.NewInt(-1))) {
